@@ -26,9 +26,11 @@ open Galaxy.Generated.Policy
 
 /-- C16 ("the rules and sets galaxy installs accept a new connection to (or from) a pod of the node exactly when
     the NetworkPolicy semantics allow it"), proved for all clusters, policy sets and flows inside `inFragment`:
-    distinct pod addresses and name hashes; peers = namespaceSelector or ipBlock (podSelector only when all pods
-    live in the policy's namespace); non-empty peer lists; every port entry numbered; per rule at most one ipBlock
-    with strictly narrower excepts, or no excepts; no pod of the node isolated in both directions; not both
+    distinct pod addresses and name hashes; peers = namespaceSelector, ipBlock, podSelector provided every pod it
+    matches lives in the policy's namespace, both selectors provided every pod the pod selector matches lives in a
+    namespace the namespace selector matches; non-empty peer lists; every port entry numbered; per rule any number
+    of ipBlocks whose excepts are strictly narrower than their own cidr and share no address with the cidr of another
+    ipBlock of the rule; no pod of the node isolated in both directions; not both
     (source egress-isolated here) and (destination ingress-isolated here); INPUT/OUTPUT flows address the host. -/
 theorem enforces_k8s_partial (c : Cluster) (ps : List NetPol) (node : String) (f : Flow)
     (h : inFragment c ps node f = true) :
